@@ -87,6 +87,11 @@ def check_block(lines_sets, eol="\r\n", blank_every=0, ident=b"/ABC5xyz") -> lis
         par.beat(json.dumps({"lines": lines_sets, "eol": eol, "blank_every": blank_every, "ident": ident.decode()}))
     flat = [s for line in lines_sets for s in line]
     errs = []
+    for bad in (b"1-0:1.8.0(1", block[:-len(eol) - 1] if block.rstrip().endswith(b")") else b"(x"):
+        try:  # calls that fail (missing ')') come first: they must leave nothing behind
+            dlde.decode_p1_readout_content(bad)
+        except Exception:  # noqa: BLE001
+            pass
     try:
         parsed = dlde.parse_p1_readout_content(block)
     except Exception as ex:  # noqa: BLE001
@@ -274,6 +279,26 @@ def _work_addr_lengths(task) -> core.Part:
     return p
 
 
+def _work_value_chars(task) -> core.Part:
+    """Text values and units with every printable ASCII character (and TAB) first, last, doubled last and inside: values
+    of addresses that are not numbers are handed out verbatim, units are parsed verbatim."""
+    lo, step = task
+    p = core.Part()
+    chars = [chr(c) for c in range(0x20, 0x7F) if chr(c) not in "()*!"] + ["\t"]
+    for ch in chars[lo::step]:
+        for v in (ch, ch + "AB", "AB" + ch, "AB" + ch + ch, "A" + ch + "B"):
+            for ls in ([[("0-0:96.1.0", [(v, None)])]], [[("0-0:96.13.0", [(v, None)]), ("1-0:32.7.0", [("230.1", "V")])]], [[("0-0:96.1.1", [("12345", v)])]],
+                       [[("1-0:99.97.0", [("1", None), (v, None), ("2", v)])], [("1-0:1.7.0", [("0001.320", "kW")])]]):
+                e = check_block(ls)
+                p.add("evaluations")
+                p.add("nontrivial")
+                if e:
+                    _rep(p, "words", ls, e)
+                    if p.full("words"):
+                        return p
+    return p
+
+
 def _work_clock_ident(task) -> core.Part:
     p = core.Part()
     for yy in (0, 1, 24, 99):
@@ -394,6 +419,7 @@ def main(run: core.Run) -> int:
     cd = KNOWN_CDE + ["9.7.0", "96.14.0", "0.2.8", "99.97.0", "24.2.1"]
     run.merge(par.pmap(_work_addr, [(cd[i::8],) for i in range(8)], seed=run.seed))
     run.merge(par.pmap(_work_addr_lengths, [(1,), (2,), (3,)], seed=run.seed))
+    run.merge(par.pmap(_work_value_chars, [(i, 8) for i in range(8)], seed=run.seed))
     run.merge(par.pmap(_work_clock_ident, [0], seed=run.seed))
     run.merge(par.pmap(_work_relations, [0], seed=run.seed))
     run.merge(par.pmap(_work_words, [(i, 8) for i in range(8)], seed=run.seed))
